@@ -52,6 +52,7 @@ def blocks(tier, seed):
             out.append({"kind": "rect", "shape": shape, "mask": [True, True, True], "phase": ph})
     for mask in ([False, False], [True, True]):
         out.append({"kind": "bigsmall", "mask": mask, "phase": ph})
+    out.append({"kind": "shared-args", "phase": ph})
     for k in ("polar", "sph"):
         out.append({"kind": k, "phase": ph})
     for pz in (False, True):
@@ -103,6 +104,13 @@ def cases(block):
                         for rule in RULES[:2]:
                             for it in INTENS[:1] + INTENS[5:6] + INTENS[9:]:
                                 yield {"grid": g, "drops": [[c1, R1, w1], [c2, R2, w2]], "rule": rule, "intensity": it, "classes": [cls0]}
+    elif k == "shared-args":
+        g = {"kind": "cart", "shape": [20, 20], "dx": [1.0, 1.0], "origin": [0.0, 0.0], "periodic": [True, False]}
+        its = ["standard-auto-fitted"] + [f"affine{i}-auto-fitted" for i in range(4)]
+        probes = [{"grid": g, "drops": [[[9.3 + ph + 0.4 * i, 10.2], 4.5, 1.0 + 0.25 * (i % 2)]], "rule": "extrema", "intensity": it, "classes": ["interior", "interior"]} for i, it in enumerate(its)]
+        for n in (2, 3):
+            for idx in itertools.permutations(range(len(probes)), n):
+                yield {"shared_args_sequence": [probes[i] for i in idx]}
     elif k == "rect":
         # strongly non-square / non-cubic boxes: the period differs from axis to axis
         shape, mask = block["shape"], block["mask"]
@@ -154,11 +162,24 @@ def cases(block):
                                 yield {"grid": g, "drops": [[[0.0, 0.0, z0 + (iz + off + ph) * 1.0], Rf, wf]], "rule": rule, "intensity": it, "classes": ["on-axis"]}
 
 
+_SHARED = {}
+
+
 def run_case(case, ctx):
     from pde import ScalarField
 
     from droplets import DiffuseDroplet, Emulsion, locate_droplets
 
+    if "shared_args_sequence" in case:
+        # history: several analyses handed the SAME refine_args dict (as a user loop or a tracker does), fresh process
+        from mcx import core
+
+        def one(c, sub):
+            run_case(dict(c, use_shared=True), sub)
+
+        _SHARED.clear()
+        ctx.count("shared-options-sequences")
+        return core.run_sequence_in_fork(one, case["shared_args_sequence"], ctx, tag={"history": "shared-refine-args"})
     g = case["grid"]
     kind = g["kind"]
     dim = geom.dim_of(g)
@@ -196,6 +217,10 @@ def run_case(case, ctx):
         args.update(vmin=None, vmax=None)
     if "fitted" in it:
         args.update(adjust_values=True)
+    if case.get("use_shared"):
+        if not _SHARED:
+            _SHARED.update(args)
+        args = _SHARED  # the very same dict object for every analysis of the sequence
     try:
         em = locate_droplets(ScalarField(grid, data), threshold=thr, refine=True, refine_args=args)
         ctx.op()
@@ -241,4 +266,4 @@ def run_case(case, ctx):
 
 def expected_positive(tier):
     return ["C05.count", "C05.position", "C05.radius", "C05.width", "C05.inbox", "across-or-outside-periodic-boundary", "fitted-levels", "two-droplets",
-            "small-droplet-within-one-big-radius-of-big-surface", "straddling-on-non-square-box", "annular-grid", "cylindrical-z-range-excluding-0"]
+            "small-droplet-within-one-big-radius-of-big-surface", "straddling-on-non-square-box", "annular-grid", "cylindrical-z-range-excluding-0", "shared-options-sequences"]
